@@ -78,17 +78,20 @@ pub fn same_outcome(exp: &OutT, from: &StateT, obs: &RespT, post: &StateT) -> Re
 /// messages in the order the specification lists them (the code's call-site order), and does it
 /// emit attributes the specification does not model?  Counted, never judged.
 /// refusal-reason conformance (informational): None = not applicable / conforms, Some(text) = differs
-pub fn error_class(kind: &str, exp: &OutT, obs: &RespT) -> Option<String> {
+pub fn error_class(kind: &str, exp: &OutT, obs: &RespT) -> Option<Result<(), String>> {
     if exp.resp.ok || obs.ok {
         return None;
     }
     let guard = exp.resp.why.first()?;
-    let alts = crate::errors::expected(kind, guard)?;
+    let alts = match crate::errors::expected(kind, guard) {
+        Some(a) => a,
+        None => return Some(Err(format!("{} / {} -> (no entry in the table)", kind, guard))),
+    };
     let text = obs.why.first().cloned().unwrap_or_default();
     if alts.iter().any(|a| text.contains(a)) {
-        None
+        Some(Ok(()))
     } else {
-        Some(format!("{} / {} -> {}", kind, guard, text))
+        Some(Err(format!("{} / {} -> {}", kind, guard, text)))
     }
 }
 
@@ -121,6 +124,7 @@ struct Stats {
     info_order_differs: AtomicU64,
     info_extra_attrs: AtomicU64,
     info_error_class: AtomicU64,
+    info_error_checked: AtomicU64,
 }
 
 /// the post-state of the first admissible outcome (what the specification expected)
@@ -206,7 +210,7 @@ fn unescape_line(line: &str) -> Option<String> {
     serde_json::from_str::<String>(line).ok()
 }
 
-pub fn replay_edge(w: &mut World, e: &EdgeT) -> (RespT, StateT, Result<(), String>, bool, (bool, Vec<String>, Option<String>)) {
+pub fn replay_edge(w: &mut World, e: &EdgeT) -> (RespT, StateT, Result<(), String>, bool, (bool, Vec<String>, Option<Result<(), String>>)) {
     w.set_env(&e.env);
     w.inject(&e.from);
     let rt_ok = w.project() == e.from;
@@ -281,7 +285,10 @@ pub fn main(args: &[String]) -> i32 {
                     if info.1.iter().any(|k| k != "class_full") {
                         stats.info_extra_attrs.fetch_add(1, Ordering::Relaxed);
                     }
-                    if let Some(t) = &info.2 {
+                    if info.2.is_some() {
+                        stats.info_error_checked.fetch_add(1, Ordering::Relaxed);
+                    }
+                    if let Some(Err(t)) = &info.2 {
                         stats.info_error_class.fetch_add(1, Ordering::Relaxed);
                         let mut g = err_samples.lock().unwrap();
                         if g.len() < 12 && !g.iter().any(|x: &String| x.split(" -> ").next() == t.split(" -> ").next()) {
@@ -392,6 +399,7 @@ pub fn main(args: &[String]) -> i32 {
         "info_message_order_differs": stats.info_order_differs.load(Ordering::Relaxed),
         "info_unmodelled_attributes": stats.info_extra_attrs.load(Ordering::Relaxed),
         "info_error_class_differs": stats.info_error_class.load(Ordering::Relaxed),
+        "info_error_class_checked": stats.info_error_checked.load(Ordering::Relaxed),
         "info_error_class_samples": *err_samples_all.lock().unwrap(),
         "by_kind": kinds.iter().map(|(k, (a, r))| (k.clone(), serde_json::json!({"accepted": a, "refused": r}))).collect::<BTreeMap<_, _>>(),
         "samples": *samples.lock().unwrap(),
